@@ -5,7 +5,7 @@ A program is a tree of nodes; a node is a dict
                            running concurrency control TASK + reroute (n_c0: one execution RUNNING at a time)
    "mr": 0|1|2,            max_retries of the task that runs the node
    "sc": ["ret", v] | ["slow", seconds, v] | ["retry_until", k, v] | ["always_retry"] | ["fail", msg],
-   "kids": [nodes], "call": "single"|"group"|"group_first"}
+   "kids": [nodes], "call": "single"|"group"|"group_first"|"group_common" (identical members, common_args)}
 Every node body counts its executions in STATE["exec"][path] (the harness reads it),
 calls its children (singly through .result / the direct wrapper, or as one parallelize
 group whose results are combined with an order-insensitive sum), then follows its script.
@@ -57,7 +57,11 @@ def _body(spec: dict, path: str) -> Any:
         else:
             k0 = kids[0]
             t = STATE["tasks"][(k0["fl"] if k0["fl"] in ("c", "r") else "p", k0["mr"])]
-            grp = t.parallelize([(kid, f"{path}.{i}") for i, kid in enumerate(kids)])
+            if spec.get("call") == "group_common":
+                # the members differ only in their position; what they share travels once as common_args
+                grp = t.parallelize([{"path": f"{path}.{i}"} for i in range(len(kids))], {"spec": k0})
+            else:
+                grp = t.parallelize([(kid, f"{path}.{i}") for i, kid in enumerate(kids)])
             if spec.get("call") == "group_first":
                 # a consumer that stops after the first result it gets (which member that is may differ between
                 # modes: the value is not used); the other members were submitted all the same
